@@ -108,7 +108,11 @@ def run_real(sc, chooser, max_steps=6000, settle=None, extra=None):
                     return return_status.HANDLED
                 chart.temp.fun = chart.top
                 return return_status.SUPER
-            ao = mao.ActiveObject(name="C")
+            class SubAO(mao.ActiveObject):
+                # a subclass with its own (larger) QUEUE_SIZE: the pending-event queue and its wake-up tokens take their
+                # capacity from one place (HsmWithQueues.QUEUE_SIZE = sc.cap here), whatever the subclass says
+                QUEUE_SIZE = sc.cap + 2
+            ao = SubAO(name="C")
             sched.name_obj(ao.locking_deque.deque, "dq")
             sched.name_obj(ao.locking_deque.locking_queue, "tok")
             sched.name_obj(ao.activeobject_task_event, "run")
@@ -316,6 +320,67 @@ def explore(run, focus, n_random, escalate=False):
         bounded_preemption_search(run, focus, budget_s=240 if run.tier == "quick" else 1500)
 
 
+def explore_posters_only(run, focus, n):
+    """oracle-only: several threads post to an active object's queue that nobody consumes (the object is not started), at and
+    around capacity: every post returns (never blocks), the queue never exceeds its capacity, one token per pending event"""
+    rng = run.rng
+    for _ in range(n):
+        cap = rng.choice([1, 2, 2, 3, 4])
+        progs = [[rng.choice("FFL") for _ in range(rng.randint(1, 4))] for _ in range(rng.randint(2, 3))]
+        pre = rng.randint(0, cap)
+        seed = rng.randrange(1 << 30)
+        r2 = random.Random(seed)
+        base = dsched.pct_chooser(r2, depth=r2.randint(1, 4), est_len=80) if r2.random() < 0.5 else dsched.random_chooser(r2)
+        saved_cap = mhsm.HsmWithQueues.QUEUE_SIZE
+        mhsm.HsmWithQueues.QUEUE_SIZE = cap
+        res = {}
+        try:
+            with dsched.Installed():
+                sched = dsched.Sched(base, max_steps=4000)
+                dsched.Sched.current = sched
+                try:
+                    ld = mao.LockingDeque()
+                    sched.name_obj(ld.deque, "dq")
+                    sched.name_obj(ld.locking_queue, "tok")
+                    for k in range(pre):
+                        ld.append(Event(signal="E0", payload=5000 + k))
+                    maxlen = [0]
+
+                    def poster(i):
+                        for j, kd in enumerate(progs[i]):
+                            e = Event(signal="E1", payload=1000 * i + j)
+                            (ld.append if kd == "F" else ld.appendleft)(e)
+                            maxlen[0] = max(maxlen[0], ld.deque.raw_len())
+                    for i in range(len(progs)):
+                        sched.spawn(poster, (i,), name="P%d" % i)
+                    res["outcome"] = sched.run()
+                    res["finished"] = [t.finished for t in sched.threads]
+                    res["errors"] = ["%s: %s: %s" % (t.name, type(t.error).__name__, t.error) for t in sched.threads if t.error is not None]
+                    res["dq"] = ld.deque.raw_len()
+                    res["tok"] = ld.locking_queue._qsize()
+                    res["schedule"] = [e[0] for e in sched.trace]
+                finally:
+                    sched.shutdown()
+        finally:
+            mhsm.HsmWithQueues.QUEUE_SIZE = saved_cap
+        cj = {"what": "posters-only", "cap": cap, "pre": pre, "progs": progs, "seed": seed, "schedule": res.get("schedule", [])}
+        run.count("posters only, capacity %d" % cap)
+        run.traces_validated += 1
+        if res.get("errors"):
+            run.violate("%s/thread-error" % focus, "a poster died: %s" % res["errors"][:2], cj)
+        elif res.get("outcome") == "quiescent" and not all(res["finished"]):
+            run.violate("C16/post-blocks" if focus == "C16" else "C05/post-never-returns", "capacity %d, %d events queued, nobody consuming: a post_fifo/"
+                        "post_lifo call blocked for ever (posters finished: %s)" % (cap, pre, res["finished"]), cj)
+        elif res.get("outcome") == "quiescent":
+            if res["dq"] > cap or maxlen[0] > cap:
+                run.violate("C16/over-capacity", "the queue held %d events, capacity %d" % (max(res["dq"], maxlen[0]), cap), cj)
+            if res["tok"] < res["dq"]:
+                run.violate("C16/no-token-for-pending-event", "at rest the queue holds %d events and %d wake-up tokens" % (res["dq"], res["tok"]), cj)
+            elif res["tok"] > res["dq"]:
+                run.count("surplus wake-up tokens at rest (racing posters; harmless: the consumer finds the queue empty)")
+        run.case(cj, nontrivial=True)
+
+
 def explore_clear_race(run, n):
     """oracle-only (the concurrent Lean model has posters and the consumer only): a client thread calls queue.clear() while
     posters and the consumer run; clear() must return normally, nobody may die, the system must come to rest"""
@@ -380,7 +445,9 @@ def bounded_preemption_search(run, focus, budget_s=240, max_preempts=2):
     t0 = _time.time()
     # phase 1: many random / PCT (depth 2-5) schedules of three-poster scenarios (finds races that need more preemptions)
     big = [Scenario([[("F", 0), ("F", 1)], [("F", 2), ("F", 0)], [("F", 1)]], {}, 500), Scenario([[("F", 0)], [("F", 1)], [("F", 2)]], {}, 500),
-           Scenario([[("F", 0), ("L", 1)], [("L", 2), ("F", 0)], [("F", 1)]], {}, 3)]
+           Scenario([[("F", 0), ("L", 1)], [("L", 2), ("F", 0)], [("F", 1)]], {}, 3),
+           Scenario([[("F", 0), ("F", 1)], [("F", 0), ("F", 1)]], {0: [("F", 2)], 1: [("F", 2)]}, 2),
+           Scenario([[("F", 0), ("F", 0), ("F", 0)], [("F", 0), ("L", 0)]], {0: [("F", 1)]}, 3)]
     rng = run.rng
     tried = 0
     while _time.time() - t0 < min(60, budget_s / 3):
